@@ -558,6 +558,8 @@ where
         if self.left == 0 {
             // With an empty data file there is nothing to repeat.
             if self.range.1 != 0 && self.repeat.again() {
+                // A trailing partial sample is not part of the data.
+                self.buf.clear();
                 self.file.seek(std::io::SeekFrom::Start(self.range.0))?;
                 self.left = self.range.1;
             } else {
